@@ -4,7 +4,7 @@ the same line format as coq/Model/Schema.v:show_result_obj.
 
 Auto-generated values are made recognisable from outside the library (no
 hook): uuid.uuid4 / uuid.uuid5 / the constructor's clock are replaced by
-sentinels from this process and written as <uuid4> / <det-id> / <now>.
+fixed sentinels from this process (the same values as Model/SchemaRun.v:sentinel_env).
 """
 import datetime
 import json
@@ -20,12 +20,15 @@ import stix2.base  # noqa: E402
 import stix2.utils  # noqa: E402
 from stix2.base import _STIXBase  # noqa: E402
 
+# the same three values are Model/SchemaRun.v:sentinel_env
+# uuid4 must differ from call to call (the constructor compares a fresh default() with the stored id
+# when it looks for defaulted optional properties); every generated value is rewritten to SENT_U4 on output
+SENT_U4 = "ffffffff-ffff-4fff-bfff-fffffffffff4"
 SENT_U5 = uuid.UUID("ffffffff-ffff-5fff-bfff-fffffffffff5")
 _U4_COUNT = [0]
 
 
 def _uuid4():
-    # distinct on every call (as the real one), recognisable by its prefix
     _U4_COUNT[0] += 1
     return uuid.UUID("ffffffff-ffff-4fff-bfff-%012x" % _U4_COUNT[0])
 
@@ -35,7 +38,6 @@ uuid.uuid4 = _uuid4
 uuid.uuid5 = lambda ns, name: SENT_U5
 _SENT_NOW = stix2.utils.STIXdatetime(1999, 12, 31, 23, 59, 58, 123456, tzinfo=datetime.timezone.utc)
 stix2.base.get_timestamp = lambda: _SENT_NOW
-NOW_RE = re.compile(r"1999-12-31T23:59:58(\.\d+)?Z")
 
 
 def esc(s):
@@ -50,8 +52,17 @@ def esc(s):
 
 
 def unmark(s):
-    s = U4_RE.sub("<uuid4>", s).replace(str(SENT_U5), "<det-id>")
-    return NOW_RE.sub("<now>", s)
+    return U4_RE.sub(SENT_U4, s)
+
+
+def unmark_json(x):
+    if isinstance(x, str):
+        return unmark(x)
+    if isinstance(x, list):
+        return [unmark_json(e) for e in x]
+    if isinstance(x, dict):
+        return {unmark(k): unmark_json(v) for k, v in x.items()}
+    return x
 
 
 def show_j(x):
@@ -90,27 +101,90 @@ def render(obj):
     return "OK %s | %s | hc=false" % (show_j(obj), show_j(obj))
 
 
+def find_class(cid):
+    ver, cname = cid.split("/")
+    mod = stix2.v20 if ver == "2.0" else stix2.v21
+    for sub in ("common", "sdo", "sro", "observables", "bundle"):
+        cls = getattr(getattr(mod, sub), cname, None)
+        if cls is not None:
+            return cls
+    raise LookupError(cid)
+
+
+def class_id(obj):
+    m = type(obj).__module__.split(".")
+    return {"v20": "2.0", "v21": "2.1"}.get(m[1], m[1]) + "/" + type(obj).__name__
+
+
+def result_of(obj, case):
+    line = render(obj)
+    if case.get("want_json") and isinstance(obj, _STIXBase):
+        return {"r": line, "ser": unmark_json(json.loads(obj.serialize())),
+                "ser_incl": unmark_json(json.loads(obj.serialize(include_optional_defaults=True))),
+                "cls": class_id(obj)}
+    return line
+
+
+def probes():
+    """Witnesses of the C02 defect variants, run on public Property classes: True = accepted."""
+    P = stix2.properties
+    u = "8d1c5bdf-5a0e-4b8e-9a3c-1f2e3d4c5b6a"
+
+    def acc(f):
+        try:
+            f()
+            return True
+        except Exception:  # noqa: BLE001
+            return False
+
+    def exc_of(f):
+        try:
+            f()
+            return "ok"
+        except Exception as e:  # noqa: BLE001
+            return type(e).__name__
+    ident = {"type": "identity", "spec_version": "2.1", "id": "identity--" + u, "created": "2016-01-01T00:00:00.000Z",
+             "modified": "2016-01-01T00:00:00.000Z", "name": "n"}
+    return {
+        "hex_nl": acc(lambda: P.HexProperty().clean("ab\n")),
+        "key_nl": acc(lambda: P.DictionaryProperty(spec_version="2.1").clean({"abc\n": 1})),
+        "sel_nl": acc(lambda: P.SelectorProperty().clean("name\n")),
+        "hash_nl": acc(lambda: P.HashesProperty(["MD5"], spec_version="2.1").clean({"MD5": "f" * 32 + "\n"}, False)),
+        "interop_nl": acc(lambda: P.IDProperty("identity", spec_version="2.1").clean("identity--" + u + "\n", False, True)),
+        "uuid_nohyphen": acc(lambda: P.IDProperty("identity", spec_version="2.1").clean("identity--" + u.replace("-", ""))),
+        "uuid_urn": acc(lambda: P.IDProperty("identity", spec_version="2.1").clean("identity--urn:uuid:" + u)),
+        "uuid_braces": acc(lambda: P.IDProperty("identity", spec_version="2.1").clean("identity--{" + u + "}")),
+        "year_pad": stix2.utils.format_datetime(stix2.utils.parse_into_datetime("0999-01-02T00:00:00Z")).startswith("0999-"),
+        "sel_upper": acc(lambda: P.SelectorProperty().clean("abc.Bar")),
+        # C04: allow mode admits a registered type outside the reference's category
+        "ref_flip_registered": acc(lambda: P.ReferenceProperty(valid_types=["SCO", "SDO"], spec_version="2.1").clean(
+            "marking-definition--" + u, True)),
+        # C04: a "custom_properties" member of parsed data switches customisation on under allow_custom=False
+        "parse_custom_properties": acc(lambda: stix2.parse(dict(ident, custom_properties={"x_a": 1}))),
+        # C17 guards
+        "ext_scan_nonmapping": exc_of(lambda: stix2.parse(dict(ident, extensions={"x-foo-ext": 5}), allow_custom=True)),
+        "bundle_without_objects": exc_of(lambda: stix2.parse({"type": "bundle", "id": "bundle--" + u})),
+        "d2s_ext_nondict": exc_of(lambda: stix2.parse({"type": "x-unknown-type", "id": "x-unknown-type--" + u, "extensions": "abc"})),
+    }
+
+
 def run(case):
     op = case["op"]
     try:
+        if op == "probes":
+            return probes()
         if op == "parse":
             obj = stix2.parse(case["data"], allow_custom=case.get("allow", False),
                               interoperability=case.get("interop", False), version=case.get("version"))
-            line = render(obj)
-            if case.get("want_json") and isinstance(obj, _STIXBase):
-                return {"r": line, "ser": json.loads(obj.serialize()),
-                        "ser_incl": json.loads(obj.serialize(include_optional_defaults=True)),
-                        "cls": type(obj).__module__.split(".")[1] + "/" + type(obj).__name__}
-            return line
+            return result_of(obj, case)
+        if op == "construct":
+            cls = find_class(case["cid"])
+            obj = cls(allow_custom=case.get("allow", False), interoperability=case.get("interop", False), **case["data"])
+            return result_of(obj, case)
         if op == "clean":
             # unit level: one Property instance of the live class table
-            ver, cname, slot = case["cls"].split("/")[0], case["cls"].split("/")[1], case["slot"]
-            mod = stix2.v20 if ver == "2.0" else stix2.v21
-            cls = None
-            for sub in ("common", "sdo", "sro", "observables", "bundle"):
-                cls = getattr(getattr(mod, sub), cname, None)
-                if cls is not None:
-                    break
+            slot = case["slot"]
+            cls = find_class(case["cls"])
             prop = cls._properties[slot]
             if case.get("contained"):
                 prop = prop.contained
